@@ -6,7 +6,7 @@ from analysis.facts import norm_path
 from analysis.sym import sym, show_in, nosite, peel, core, walk, ret_values, args_of, guards_at, atoms_at, \
     variant_facts_at, cmp_facts_at
 from analysis.pat import match, Call, Cap, ANY, Pred, Const, has, chain_names
-from rules.common import closure_of
+from rules.common import closure_of, closures_in
 from rules import pipe
 
 PRODUCER_FLOOR = 2   # counted on the pinned tree: Pipe worker, Buffered producer (the loader's producer loops)
@@ -45,6 +45,17 @@ def r1(ctx):
                 err_edges.append(g)
             elif pol is None and tr[0] == 'discr' and match(nosite(tr[1]), Call('branch', Pred(lambda x: nosite(x) == res))) and g.values == {1}:
                 err_edges.append(g)
+            elif pol is not None and tr[0] in ('var', 'phi'):
+                # the outcome kept in a flag that the loop tests (`open = tx.send(x).is_ok(); .. while open { .. }`)
+                from analysis.sym import defs_of, symbolizer, simplify
+                loc = tr[2] if tr[0] == 'var' and len(tr) > 2 else tr[1]
+                whole, partial = defs_of(b, loc) if isinstance(loc, int) else ((), ())
+                z = symbolizer(b)
+                for d in whole:
+                    dv = nosite(simplify(z.rvalue(d.rv, 0, (loc,)) if hasattr(d, 'rv') else z.call(d, 0, (loc,))))
+                    if (pol is False and match(dv, Call('Result::is_ok', Pred(lambda x: nosite(x) == res)))) or \
+                            (pol is True and match(dv, Call('Result::is_err', Pred(lambda x: nosite(x) == res)))):
+                        err_edges.append(g)
         if not err_edges:
             ctx.fail(b, 'send-result-ignored|' + where.rsplit('::', 2)[-2],
                      '%s: the Result of the send at line %d is never inspected: after the consumer is gone the loop keeps '
@@ -103,6 +114,21 @@ def r3(ctx):
     pb = closure_of(ctx, sym(bn, sp[0].args[-1]))
     sends = [t for t in pb.calls(r'mpsc::SyncSender::send$')]
     if len(sends) != 1:
+        # `iter.try_for_each(|item| tx.send(item))`: one blocking send per pulled item, stops at the first failed send -- by construction
+        tfe = [(x, t) for x in [pb] + closures_in(ctx, pb) for t in x.calls(r'Iterator::try_for_each$')]
+        okt = False
+        if len(tfe) == 1:
+            x, t = tfe[0]
+            clo = closure_of(ctx, sym(x, t.args[1]))
+            crv = ret_values(clo)
+            okt = len(crv) == 1 and match(peel(crv[0][0]), Call('mpsc::SyncSender::send', ANY, ('arg', 2, ANY)))
+        if okt:
+            ctx.ok(pb, 'Buffered producer: upstream.try_for_each(|item| tx.send(item)) -- one blocking send per pull, the first failure ends it', tfe[0][1].span)
+            caps = sym(bn, sp[0].args[-1])[3]
+            ctx.require(any(match(core(c), ('arg', 1, ANY)) for c in caps), bn, 'buffered-moves-iter', 'the upstream iterator is moved into the producer', None)
+            nx = ctx.body('<data::loading::Buffered as std::iter::Iterator>::next')
+            _buffered_consumer(ctx, nx, bn)
+            return
         ctx.fail(pb, 'buffered-send', 'Buffered producer: expected one blocking SyncSender::send, found %d' % len(sends))
         return
     loop = cfg.innermost_loop(pb, sends[0].bb)
@@ -118,6 +144,10 @@ def r3(ctx):
     ctx.require(any(match(core(c), ('arg', 1, ANY)) for c in caps), bn, 'buffered-moves-iter', 'the upstream iterator is moved into the producer', None)
     # consumer side: plain blocking recv
     nx = ctx.body('<data::loading::Buffered as std::iter::Iterator>::next')
+    _buffered_consumer(ctx, nx, bn)
+
+
+def _buffered_consumer(ctx, nx, bn):
     rv = ret_values(nx)
     RECV = Call('mpsc::Receiver::recv', ANY)
     okrecv = len(rv) == 1 and match(rv[0][0], Call('Result::ok', RECV))
